@@ -436,6 +436,8 @@ def do_op(ctx, op, entry):
                 entry["managers_at_return"] = sum(
                     1 for t in S.procs[K.PARENT_PID].threads
                     if t.name.startswith("manager") and t.state != "done")
+                entry["alive_workers_at_return"] = sorted(
+                    p.label for p in S.procs.values() if p.label.startswith("worker") and p.alive)
         del e
     elif name == "del":
         ctx["e"] = None
